@@ -56,6 +56,8 @@ def run(ctx):
         good = rets and all(some_of(fv.term(n["e"])) == ("tup", SF("fval"), SF("rval")) for n in rets)
         ctx.check("C02.S3", "next:pair", bool(good), "items are (forward register, reverse register)",
                   "an emitted pair is not (fval, rval)", line_of(rets[0]) if rets else fv.fn["sp"])
+    # strand symmetry of the stream needs the whole iterator discipline (updates only on clean bytes, reset, emission)
+    c01.run(dep(ctx, "C02", "C01"))
 
 
 def decode_rules(ctx, tab):
